@@ -255,9 +255,28 @@ func ruleGroupKey(c *eng.Ctx) {
 	}
 	// order-insensitive criteria are sorted before the key is encoded
 	for _, f := range []string{"Tags", "Paths"} {
+		// the values that can end up in the key field (other than the empty default)
+		var keyVals []ssa.Value
+		for _, st := range c.P.FieldStoresIn(fn, keyF(f)) {
+			for _, v := range originsThroughPhi(st.Val) {
+				if !isZeroConst(v) {
+					keyVals = append(keyVals, v)
+				}
+			}
+		}
+		sameSlice := func(a ssa.Value) bool {
+			for _, v := range keyVals {
+				if a == v || sameFieldLoad(a, v) {
+					return true
+				}
+			}
+			return false
+		}
 		var sorts []ssa.CallInstruction
 		for _, call := range c.P.CallsTo(fn, "sort.Strings", "slices.Sort") {
-			if mentionsFieldDeepArgs(eng.Arg(call, 0), snF(f)) {
+			// the slice sorted must be the very slice the key carries (the same value, or the
+			// same field of the same snapshot read again) — sorting another copy does not order the key
+			if sameSlice(eng.Arg(call, 0)) {
 				sorts = append(sorts, call)
 			}
 		}
